@@ -408,8 +408,15 @@ func (t *Type) IsAnonymousStruct() bool {
 	return (t.Kind == Struct && t.Name.Name == "struct{}") || (t.Kind == Alias && t.Underlying.IsAnonymousStruct())
 }
 
-// IsComparable returns whether the type is comparable.
+// IsComparable returns whether the type is comparable.  Only types made by
+// the parser carry the Go type this is decided on: for everything else (the
+// entry of a function, variable or constant, a type which was looked up but
+// never loaded, a type built by hand) the answer is false, as it is for
+// IsPrimitive and IsAssignable.
 func (t *Type) IsComparable() bool {
+	if t.GoType == nil {
+		return false
+	}
 	return gotypes.Comparable(t.GoType)
 }
 
